@@ -438,6 +438,55 @@ func nmoveSweeps(p *Prog, r *Report, rule string) {
 	if nf == 0 {
 		r.Ob("fixation:credit", "-", false, "no fixation credit found")
 	}
+	// the credit is booked on exactly the days on which the crop routine runs (and counts the fixation in the crop's
+	// N): the day window of the credit equals the window of the crop routine's call site in the day loop
+	{
+		window := func(gs []*Cond) map[string]string {
+			out := map[string]string{}
+			for _, g := range flattenGuards(gs) {
+				if g.Kind != "cmp" || g.Loop {
+					continue
+				}
+				P := stripVersions(g.P)
+				ts := P.sortedTerms()
+				if len(ts) != 2 {
+					continue
+				}
+				for _, t := range ts {
+					if len(t.M) == 1 && t.M[0].E == 1 && t.M[0].A.Kind == "cell" && (t.M[0].A.Root == "GlobalVarsMain.SAAT" || t.M[0].A.Root == "GlobalVarsMain.ERNTE2") && t.C.IsInt() {
+						op := g.Op
+						if t.C.Sign() > 0 {
+							op = flipOp(op) // date − day op 0  ⇒  day flip(op) date
+						}
+						out[shortRoot(t.M[0].A.Root)] = "day " + op.String() + " " + shortRoot(t.M[0].A.Root)
+					}
+				}
+			}
+			return out
+		}
+		var credit, call map[string]string
+		pos := "-"
+		for _, e := range x.Events {
+			if e.Kind == "assign" && e.Root == "GlobalVarsMain.PESUM" && len(e.Loops) == 0 && stripVersions(e.Val.Sub(e.Old)).MentionsRoot("GlobalVarsMain.SCHNORR") {
+				credit = window(e.Guards)
+				pos = p.Pos(e.Pos)
+			}
+		}
+		if run := walked(p, "hermes.HermesSession.Run"); run != nil {
+			for _, e := range run.Events {
+				if e.Kind == "call" && e.Callee != nil && e.Callee.Name() == "PhytoOut" {
+					call = window(e.Guards)
+				}
+			}
+		}
+		same := credit != nil && call != nil && len(credit) == len(call) && len(call) == 2
+		for k, v := range call {
+			if credit[k] != v {
+				same = false
+			}
+		}
+		r.Ob("fixation:window", pos, same, fmt.Sprintf("the fixation credit is booked under %v, the crop routine that computes and counts the fixation runs under %v: must be the same two-sided day window (a day on which the crop routine runs without the credit loses that day's fixation from the balance)", credit, call))
+	}
 	// the amount credited is today's fixation: every store to the hand-over variable sets it to the fixation just
 	// computed (no dependence on its own previous value: a pending amount would be credited to another day or crop),
 	// and only the crop routine writes it
